@@ -1,5 +1,5 @@
 """C01 Page set fidelity: no page lost, invented, duplicated or altered."""
-from harness.common import plain_pool, Ref, match_multiset, NEVER
+from harness.common import plain_pool, concrete_pool, Ref, match_multiset, NEVER
 from harness.driver import History
 
 ID = "C01"
@@ -11,6 +11,10 @@ FUNCTIONS = ["Traph.add_page", "Traph.add_pages", "Traph.add_links", "Traph.inde
 
 # payload lengths: stem = payload + '|' (73 -> exactly one block, 74 -> one tail byte, 147 -> exactly two blocks ...)
 LONG = [[[73], [73, 1], [1]], [[74], [74, 1], [1, 1]], [[1, 147], [1, 100], [2]], [[148], [148, 1], [221]], [[100, 1], [100, 2], [1]]]
+
+
+# LRUs submitted as str (the API UTF-8-encodes them): ASCII, Latin-1 range, CJK, an astral character
+STR_LRUS = [["s:http|", "h:com|"], ["s:http|", "h:com|", "h:caf\u00e9|"], ["s:http|", "h:\u65e5\u672c|", "p:\U0001f600x|"]]
 
 
 def levels(tier):
@@ -25,6 +29,8 @@ def levels(tier):
              "links_batch": 1, "batch_targets": 1},
             {"name": "recrawl3", "shapes": [[1, 2, 2]], "L": 1, "n": 1, "prelude": [["page", 0, True]], "alphabet": ["batch"],
              "batch_sources": 3, "batch_targets": 1, "yield_frequencies": [50, 1]},
+            {"name": "str-lrus", "concrete": STR_LRUS, "as_str": True, "n": 2, "alphabet": ["page", "pages", "links", "batch", "we"],
+             "links_batch": 1, "batch_targets": 1},
         ]
     return [
         {"name": "n1-2shapes", "shapes": [[1, 2, 2], [2, 2, 3]], "L": 1, "n": 1, "alphabet": full},
@@ -64,7 +70,9 @@ def observe_pages(E, t, ref, tag):
 
 def harness(E):
     P = E.params
-    if "pools" in P:
+    if "concrete" in P:
+        pool = concrete_pool(E, P["concrete"])
+    elif "pools" in P:
         L = P["pools"][E.choose("pool", len(P["pools"]))]
         pool = plain_pool(E, [len(x) for x in L], L, sparse=P.get("sparse", False))
     else:
